@@ -144,3 +144,14 @@ Qed.
 Lemma fold_left_none {A B} (f : option A -> B -> option A) (l : list B) :
   (forall b, f None b = None) -> fold_left f l None = None.
 Proof. intros H. induction l as [|x l IH]; cbn [fold_left]; [reflexivity|]. rewrite H. exact IH. Qed.
+
+Lemma countN_map {A B} (g : A -> B) (p : B -> bool) l : countN p (map g l) = countN (fun x => p (g x)) l.
+Proof.
+  induction l as [|x l IH]; [reflexivity|]. cbn [map]. rewrite !countN_cons, IH. reflexivity.
+Qed.
+Lemma filter_snd_indexed_length {A} (p : A -> bool) : forall (l : list A) s,
+  length (filter (fun iv => p (snd iv)) (indexed_from s l)) = length (filter p l).
+Proof.
+  induction l as [|x l IH]; intros s; cbn [indexed_from filter snd]; [reflexivity|].
+  destruct (p x); cbn [length]; rewrite IH; reflexivity.
+Qed.
